@@ -98,6 +98,9 @@ func genOptRaw(r *rand.Rand, ns *nameSpace, nsPrefix string, allowReq bool) *Opt
 	case k < 78:
 		o.Kind = "map"
 		o.VType = pick(r, []string{"string", "string", "int"})
+		if chance(r, 0.3) {
+			o.KType = pick(r, []string{"int", "int", "uint8"}) // keys are converted like values, with the option's base
+		}
 	case k < 86:
 		o.Kind = "ptr"
 		o.VType = pick(r, []string{"string", "int", "int8"})
@@ -108,7 +111,7 @@ func genOptRaw(r *rand.Rand, ns *nameSpace, nsPrefix string, allowReq bool) *Opt
 		o.Kind = "func1"
 		o.VType = pick(r, []string{"string", "string", "int"})
 	}
-	if isIntType(o.VType) && o.Kind != "flag" {
+	if (isIntType(o.VType) || o.KType != "") && o.Kind != "flag" {
 		o.Base = pick(r, intBases)
 	}
 	canArg := !(o.Kind == "flag" || o.Kind == "counter" || o.Kind == "ptrflag" || o.Kind == "func0")
@@ -185,8 +188,10 @@ func genOptRaw(r *rand.Rand, ns *nameSpace, nsPrefix string, allowReq bool) *Opt
 				o.Init = txts("p1", "p2")
 			}
 		case "map":
-			if o.VType == "string" {
+			if o.VType == "string" && o.KType == "" {
 				o.Init = txts("pk:pv")
+			} else if o.VType == "string" {
+				o.Init = txts("9:pv", "10:pw")
 			}
 		}
 	}
@@ -285,6 +290,10 @@ func validValue(r *rand.Rand, o *OptNode) string {
 		}
 	}
 	if o.Kind == "map" {
+		if o.KType != "" { // numerals valid in every base, now and then one that is not (or not a numeral at all)
+			k := pick(r, []string{"1", "0", "10", "11", "101", "1", "10", "7", "9", "12", "-1", "+1", "010", "k", ""})
+			return k + ":" + v
+		}
 		return pick(r, []string{"k", "key", "a", "é", "k2"}) + ":" + v
 	}
 	return v
